@@ -296,6 +296,18 @@ fn graphics_state(rng: &mut Rng, features: &mut Vec<String>) -> String {
     s
 }
 
+/// The stages of a pipeline may be written in any order
+fn push_stage_lines(rng: &mut Rng, props: &mut String, features: &mut Vec<String>, first: String, second: String) {
+    if rng.chance(1, 3) {
+        props.push_str(&second);
+        props.push_str(&first);
+        features.push("pipeline:stages-in-reverse-order".into());
+    } else {
+        props.push_str(&first);
+        props.push_str(&second);
+    }
+}
+
 pub fn generate(rng: &mut Rng, cfg: &Config) -> Program {
     let mut text = String::new();
     let mut features: Vec<String> = Vec::new();
@@ -551,8 +563,9 @@ pub fn generate(rng: &mut Rng, cfg: &Config) -> Program {
                     p, prologue, b1
                 ));
                 text.push_str(&format!("float4 PSMain{}(float2 i_uv : TEXCOORD) : SV_Target0\n{{\n{}    uint ui = 3u;\n    acc.xy += i_uv;\n{}    return acc;\n}}\n\n", p, prologue, b2));
-                props.push_str(&format!("    VertexShader = VSMain{};\n", p));
-                props.push_str(&format!("    PixelShader = {};\n", if fault == Some("pipeline-error:unknown-entry-point") { "MissingEntryPoint".to_string() } else { format!("PSMain{}", p) }));
+                let first = format!("    VertexShader = VSMain{};\n", p);
+                let second = format!("    PixelShader = {};\n", if fault == Some("pipeline-error:unknown-entry-point") { "MissingEntryPoint".to_string() } else { format!("PSMain{}", p) });
+                push_stage_lines(rng, &mut props, &mut features, first, second);
                 props.push_str(&graphics_state(rng, &mut features));
                 if fault == Some("pipeline-error:stage-combination") {
                     props.push_str(&format!("    ComputeShader = VSMain{};\n", p));
@@ -575,8 +588,9 @@ pub fn generate(rng: &mut Rng, cfg: &Config) -> Program {
                     prologue = prologue,
                     b2 = b2
                 ));
-                props.push_str(&format!("    MeshShader = {};\n", if fault == Some("pipeline-error:unknown-entry-point") { "MissingEntryPoint".to_string() } else { format!("MSMain{}", p) }));
-                props.push_str(&format!("    PixelShader = MPSMain{};\n", p));
+                let first = format!("    MeshShader = {};\n", if fault == Some("pipeline-error:unknown-entry-point") { "MissingEntryPoint".to_string() } else { format!("MSMain{}", p) });
+                let second = format!("    PixelShader = MPSMain{};\n", p);
+                push_stage_lines(rng, &mut props, &mut features, first, second);
                 props.push_str(&graphics_state(rng, &mut features));
                 features.push("pipeline:mesh-pixel".into());
             }
@@ -596,8 +610,9 @@ pub fn generate(rng: &mut Rng, cfg: &Config) -> Program {
                     prologue = prologue,
                     b2 = b2
                 ));
-                props.push_str(&format!("    TaskShader = TaskEntry{};\n", p));
-                props.push_str(&format!("    MeshShader = {};\n", if fault == Some("pipeline-error:unknown-entry-point") { "MissingEntryPoint".to_string() } else { format!("TaskMesh{}", p) }));
+                let first = format!("    TaskShader = TaskEntry{};\n", p);
+                let second = format!("    MeshShader = {};\n", if fault == Some("pipeline-error:unknown-entry-point") { "MissingEntryPoint".to_string() } else { format!("TaskMesh{}", p) });
+                push_stage_lines(rng, &mut props, &mut features, first, second);
                 features.push("pipeline:task-mesh".into());
             }
         }
